@@ -1,5 +1,6 @@
-import Secp.Proofs.DriversFront
-import Secp.Proofs.DriversMisc
+import Secp.Proofs.DriversPubKeyOf
+import Secp.Proofs.DriversCompact
+import Secp.Proofs.FrontSign
 import Secp.Proofs.DriversSign
 import Secp.Proofs.Ecdsa
 import Secp.Props.C03
@@ -109,17 +110,17 @@ theorem signCompact_regenerated (d : Nat) (h : Bytes) (c : Bool) :
     Secp.Gen.Drivers.signCompact d h c = (match Secp.Gen.Drivers.signRFC6979 d h with
       | .ok (r, s, v) => DR.ok (exportCompactM r s v true (27 + (if c then 4 else 0)))
       | .err e => DR.err e | .panic => DR.panic | .fuel => DR.fuel | .undef => DR.undef) :=
-  Secp.Proofs.DriversMisc.signCompact_regenerated d h c
+  Secp.Proofs.DriversCompact.signCompact_regenerated d h c
 end
 
 /-- `PrivateKey.PubKey` regenerated = the affine base-point multiple -/
 theorem pubKey_regenerated (d : Nat) :
     Secp.Gen.Drivers.pubKey d = ((toAffineJ (scalarBaseMultNC d)).1, (toAffineJ (scalarBaseMultNC d)).2.1) :=
-  Secp.Proofs.DriversMisc.pubKey_regenerated d
+  Secp.Proofs.DriversPubKeyOf.pubKey_regenerated d
 
 /-- the exported `Sign` is `signRFC6979` -/
 theorem sign_front (d : Nat) (h : Bytes) : Secp.Gen.Drivers.signGen d h = Secp.Gen.Drivers.signRFC6979 d h :=
-  Secp.Proofs.DriversFront.sign_front d h
+  Secp.Proofs.FrontSign.sign_front d h
 
 
 /-- `PrivateKey.Sign` (crypto.Signer) regenerated: signs the digest AS GIVEN with `signRFC6979`; compact export (offset 0)
@@ -131,6 +132,6 @@ theorem signer_front (d : Nat) (digest : Bytes) (opts : Option (Nat × Nat)) :
        | .ok (r, s, v) =>
          DR.ok (if (opts.getD (0, 0)).1 == 1 then exportCompactM r s v true 0 else serializeDER r s)
        | .err e => DR.err e | .panic => DR.panic | .fuel => DR.fuel | .undef => DR.undef) :=
-  Secp.Proofs.DriversFront.signer_front d digest opts
+  Secp.Proofs.FrontSign.signer_front d digest opts
 
 end Secp.Props.C01
